@@ -1,10 +1,166 @@
-"""Behaviours generated from the specification (they depend on the spec only, never on /repo):
-cached under /verif/gen keyed by a hash of the spec files."""
+"""Behaviours generated from the specification.
+
+TLC explores an implementation-shaped model with DumpEdges = TRUE; an ACTION_CONSTRAINT prints
+every explored transition as one JSON line (EDGE {s, t, i, cod, op}) and an ASSUME prints the
+constant table of abstract inputs (TABLE [...]).  This script turns the edge list into an
+EDGE COVER BY PATHS from the initial states (BFS tree + greedy extension over uncovered
+edges): one implementation test per model transition.  The result depends on the spec only,
+never on /repo, so it is cached under /verif/gen keyed by a hash of the spec + cfg + this file.
+"""
+import collections
+import hashlib
+import json
 import os
+import re
+import shutil
+import subprocess
+import time
 
 ROOT = os.path.dirname(os.path.dirname(os.path.abspath(__file__)))
+SPEC = os.path.join(ROOT, "spec")
+GEN = os.path.join(ROOT, "gen")
 
-GENERATORS = {}
+
+def spec_hash(extra, modules):
+    h = hashlib.sha1()
+    for f in sorted(modules):
+        h.update(open(os.path.join(SPEC, f + ".tla"), "rb").read())
+    h.update(open(__file__, "rb").read())
+    h.update(extra.encode())
+    return h.hexdigest()[:16]
+
+
+def run_tlc_dump(module, cfg, out_path, workers=16, timeout=3000):
+    meta = os.path.join(ROOT, "work", "gen-" + os.path.basename(cfg))
+    shutil.rmtree(meta, ignore_errors=True)
+    os.makedirs(meta, exist_ok=True)
+    env = dict(os.environ)
+    env["JAVA_TOOL_OPTIONS"] = "-Xss1g -Xmx8g"
+    with open(out_path, "w") as f:
+        p = subprocess.run(["tlc", "-workers", str(workers), "-metadir", meta, "-noGenerateSpecTE",
+                            "-config", cfg, module + ".tla"], cwd=SPEC, env=env, stdout=f,
+                           stderr=subprocess.STDOUT, timeout=timeout)
+    shutil.rmtree(meta, ignore_errors=True)
+    txt = open(out_path, errors="replace").read()
+    if "Model checking completed. No error has been found." not in txt:
+        raise RuntimeError("edge dump of %s/%s failed:\n%s" % (module, cfg, txt[-2000:]))
+
+
+def unq(line):
+    line = line.strip()
+    if line.startswith('"'):
+        line = json.loads(line)
+    return line
+
+
+def load_dump(path):
+    table = None
+    edges = []
+    with open(path, errors="replace") as f:
+        for line in f:
+            if line.startswith('"EDGE ') or line.startswith("EDGE "):
+                edges.append(json.loads(unq(line)[5:]))
+            elif line.startswith('"TABLE ') or line.startswith("TABLE "):
+                table = json.loads(unq(line)[6:])
+    return table, edges
+
+
+def edge_cover(edges, maxlen=48, prefer=None):
+    """edges: list of dicts with s, t, i(initial src), op.  Returns list of paths (lists of edge idx)."""
+    out = collections.defaultdict(list)
+    seen_e = set()
+    uniq = []
+    for e in edges:
+        k = (e["s"], e["t"], json.dumps(e["op"], sort_keys=True))
+        if k in seen_e:
+            continue
+        seen_e.add(k)
+        uniq.append(e)
+    edges = uniq
+    for idx, e in enumerate(edges):
+        out[e["s"]].append(idx)
+    inits = sorted({e["s"] for e in edges if e.get("i")})
+    parent = {s: None for s in inits}
+    order = list(inits)
+    dq = collections.deque(inits)
+    while dq:
+        u = dq.popleft()
+        for idx in out.get(u, []):
+            v = edges[idx]["t"]
+            if v not in parent:
+                parent[v] = idx
+                order.append(v)
+                dq.append(v)
+
+    def path_to(u):
+        p = []
+        while parent[u] is not None:
+            idx = parent[u]
+            p.append(idx)
+            u = edges[idx]["s"]
+        p.reverse()
+        return p
+
+    covered = [False] * len(edges)
+    paths = []
+    for u in order:
+        for idx in out.get(u, []):
+            if covered[idx]:
+                continue
+            p = path_to(u) + [idx]
+            for j in p:
+                covered[j] = True
+            v = edges[idx]["t"]
+            while len(p) < maxlen:
+                cand = [j for j in out.get(v, []) if not covered[j]]
+                if not cand:
+                    break
+                if prefer:
+                    cand.sort(key=lambda j: 0 if prefer(edges[j]) else 1)
+                j = cand[0]
+                covered[j] = True
+                p.append(j)
+                v = edges[j]["t"]
+            paths.append(p)
+    return edges, paths, sum(covered)
+
+
+# ------------------------------------------------------------------ dechunk
+
+def gen_dechunk(tier, log):
+    cfg = os.path.join(SPEC, "MCDechunk_edges_%s.cfg" % tier)
+    key = spec_hash("dechunk-" + tier + open(cfg).read(), ["MCDechunk", "BodyReader", "Big"])
+    os.makedirs(GEN, exist_ok=True)
+    out = os.path.join(GEN, "dechunk-%s-%s.ndjson" % (tier, key))
+    if os.path.exists(out):
+        return out
+    t0 = time.time()
+    dump = out + ".dump"
+    run_tlc_dump("MCDechunk", cfg, dump)
+    table, edges = load_dump(dump)
+    os.remove(dump)
+    edges, paths, ncov = edge_cover(edges, maxlen=64, prefer=lambda e: e["op"]["op"] == "read")
+    tmp = out + ".tmp"
+    with open(tmp, "w") as f:
+        for p in paths:
+            e0 = edges[p[0]]
+            cod = table[e0["cod"] - 1]
+            stop0 = e0["s"].endswith(".s")
+            ops = []
+            for j in p:
+                op = dict(edges[j]["op"])
+                op.pop("fails", None)
+                ops.append(op)
+            f.write(json.dumps({"kind": "dechunk", "coding": cod, "stop0": stop0, "ops": ops}) + "\n")
+    os.rename(tmp, out)
+    for old in os.listdir(GEN):
+        if old.startswith("dechunk-%s-" % tier) and os.path.join(GEN, old) != out:
+            os.remove(os.path.join(GEN, old))
+    log("gen: dechunk/%s: %d model edges covered by %d scripts (%.1fs)" % (tier, ncov, len(paths), time.time() - t0))
+    return out
+
+
+GENERATORS = {"dechunk": gen_dechunk}
 
 
 def ensure(name, tier, log):
@@ -13,5 +169,4 @@ def ensure(name, tier, log):
 
 def ensure_all(log):
     for name, g in GENERATORS.items():
-        for tier in ("quick",):
-            g(tier, log)
+        g("quick", log)
